@@ -109,7 +109,8 @@ pub fn parse(input: &str) -> Result<AisleConf, AisleConfError> {
         let input_ptr = input.as_ptr();
         // SAFETY: only used when `s` is an slice of the original input str
         assert!(s_ptr >= input_ptr);
-        assert!(s_ptr <= unsafe { input_ptr.add(input.len() - 1) });
+        // an empty slice can sit right at the end of the input
+        assert!(s_ptr <= unsafe { input_ptr.add(input.len()) });
         let offset = unsafe { s_ptr.offset_from(input_ptr) };
         let offset = offset as usize;
         Span::new(offset, offset + s.len())
